@@ -61,7 +61,70 @@ def check_definition(case, ctx):
         ctx.label("shortcut_fired_but_right")
 
 
+@st.composite
+def s_xl(draw):
+    return {"seed": draw(st.integers(0, 2 ** 32 - 1)), "n": draw(st.sampled_from([40, 64, 65, 66, 70, 90, 120])),
+            "shape": draw(st.sampled_from(["random", "random", "staircases", "lattice"])), "hom_deg": draw(st.sampled_from([0, 1]))}
+
+
+def expand_xl(sp):
+    import random
+    rng = random.Random(sp["seed"])
+    n = sp["n"]
+    bars = []
+    if sp["shape"] == "lattice":
+        while len(bars) < n:
+            b = rng.randint(0, 40)
+            bar = [float(b), float(b + rng.randint(1, 25))]
+            if bar not in bars:
+                bars.append(bar)
+    elif sp["shape"] == "staircases":
+        # separated groups of overlapping bars: gaps and touching points inside one depth
+        x = 0.0
+        while len(bars) < n:
+            for _ in range(rng.randint(3, 12)):
+                if len(bars) >= n:
+                    break
+                b = x + rng.uniform(0.1, 3.0)
+                bars.append([b, b + rng.uniform(4.0, 9.0)])
+                x = b
+            x = max(d for _, d in bars) + rng.choice([0.0, rng.uniform(0.5, 5.0)])
+    else:
+        for _ in range(n):
+            b = rng.uniform(0, 100)
+            bars.append([b, b + rng.uniform(0.5, 40)])
+    rng.shuffle(bars)
+    return bars
+
+
+def check_xl(case, ctx):
+    bars = expand_xl(case)
+    labs = LD.structure_labels(bars) if len(bars) <= 70 else set()
+    ctx.label("n=%d" % len(bars), "shape:" + case["shape"])
+    ple = LD.exact_from_bars(ctx, bars, hom_deg=case["hom_deg"])
+    fired = LD.shortcut_fired(ple)
+    ctx.nontrivial(len(bars) >= 66 and not fired)
+    cps = ple.critical_pairs
+    msg = None
+    try:
+        LD.check_wellformed(ctx, cps, len(bars))
+        msg = LD.compare_with_definition_np(bars, cps, LD.coord_scale(bars))
+        sig = "differs_from_definition"
+    except Violation as v:
+        msg, sig = v.msg, v.sig
+    if msg is not None:
+        if fired:
+            raise Violation("shortcut_mismatch", "repeated-bar shortcut fired %d time(s): %s" % (fired, msg))
+        raise Violation(sig, "%s; %d bars, spec=%s" % (msg, len(bars), case))
+
+
 def VALID_DEFAULT(case):
+    if "n" in case:
+        return case["n"] >= 1 and case["shape"] in ("random", "staircases", "lattice") and case["hom_deg"] in (0, 1)
+    return _valid_small(case)
+
+
+def _valid_small(case):
     try:
         return valid_family(case["fam"], allow_diag=False, min_size=1) and sorted(case["perm"]) == list(range(len(case["fam"]["dgms"][0]))) \
             and case["hom_deg"] in (0, 1, 2)
@@ -79,4 +142,7 @@ CLAUSES = [
            rule="phase B - repeated bars likely (each new bar copies an earlier one with probability 1/4); " + _rule),
     Clause("definition_large", s_case(False, 14), check_definition, quick=2000, thorough=30000,
            rule="up to 14 bars; " + _rule),
+    Clause("definition_xl", s_xl(), check_xl, quick=48, thorough=320,
+           rule="40..120 bars expanded from a generated seed (random floats; separated staircases of overlapping bars with gaps and touching "
+                "points; distinct lattice bars), shuffled; same exact decision with a vectorised oracle; non-trivial = >= 66 bars and shortcut not fired"),
 ]
